@@ -154,6 +154,9 @@ func TestC16Recovery(t *testing.T) {
 		used := map[string]*walletsim.OwnAddr{}
 		var ext uint32
 		jumps, multi, spends, sameBlockSpend := 0, 0, 0, 0
+		band := long && rapid.Bool().Draw(t, "payAroundBatchEnd")
+		bandKey := branchKey{waddrmgr.DefaultKeyScopes[rapid.IntRange(0, 3).Draw(t, "bandScope")], uint32(rapid.IntRange(0, 1).Draw(t, "bandBranch"))}
+		bandBlocks := 0
 		for h := 1; h <= nBlocks; h++ {
 			step := time.Duration(rapid.IntRange(1, 200).Draw(t, "dtMin")) * time.Minute
 			ts = ts.Add(step)
@@ -174,7 +177,15 @@ func TestC16Recovery(t *testing.T) {
 			if long && !(h < firstPay+40 || h > 1960) {
 				payHere = false // keep the long stretch empty (cheap), pay before and after the batch boundary
 			}
-			if payHere && rapid.IntRange(0, 9).Draw(t, "paying") < 4 {
+			// half of the long chains pay in every block of a band around the end
+			// of the first recovery batch, each time at the far end of the
+			// look-ahead window of one branch: whichever block closes the batch, the
+			// next one pays an address that is in the window only because of it
+			forced := long && band && h >= firstPay+1985 && h <= firstPay+2005
+			if forced {
+				bandBlocks++
+			}
+			if payHere && (forced || rapid.IntRange(0, 9).Draw(t, "paying") < 4) {
 				nPay := rapid.IntRange(1, 4).Draw(t, "nPayments")
 				if nPay > 1 {
 					multi++
@@ -183,6 +194,9 @@ func TestC16Recovery(t *testing.T) {
 				for k := 0; k < nPay; k++ {
 					sc := waddrmgr.DefaultKeyScopes[rapid.IntRange(0, 3).Draw(t, "scope")]
 					br := uint32(rapid.IntRange(0, 1).Draw(t, "branch"))
+					if forced && k == 0 {
+						sc, br = bandKey.scope, bandKey.branch
+					}
 					bk := branchKey{sc, br}
 					hi, ok := before[bk]
 					if !ok {
@@ -190,6 +204,9 @@ func TestC16Recovery(t *testing.T) {
 					}
 					// index < W beyond the highest index paid in EARLIER blocks
 					idx := rapid.IntRange(0, hi+int(W)).Draw(t, "index")
+					if forced && k == 0 {
+						idx = hi + int(W)
+					}
 					if idx > hi+1 {
 						jumps++
 					}
@@ -414,6 +431,9 @@ func TestC16Recovery(t *testing.T) {
 		}
 		if sameBlockSpend > 0 {
 			c.Class("same-block-spend")
+		}
+		if bandBlocks > 0 {
+			c.Class("window-edge-payment-in-every-block-around-batch-end")
 		}
 		if W == 250 {
 			c.Class("default-window-250")
